@@ -369,26 +369,27 @@ func (s *Session) familyUnitsImpl(id string, probes []ProbeResult, re *regexp.Re
 	for _, in := range insts {
 		con := s.cs.ByKey[in.key]
 		s.famCounts[in.kind]++
-		if !con.hasProp(id) {
-			continue
-		}
 		if re != nil && !re.MatchString(in.key) {
 			continue
 		}
-		u := s.verifyKey(in.key, con)
-		// anchors of a family contract need not occur in every member
-		var keep []*Obligation
-		for _, o := range u.Obls {
-			if i := strings.Index(o.Name, ":anchor:"); i >= 0 && !con.MustAt[o.Name[i+len(":anchor:"):]] {
-				continue
+		// the member itself is verified for the properties its family is tagged with; its closure family (below)
+		// has tags of its own and is verified for those even when the enclosing function is not
+		if con.hasProp(id) {
+			u := s.verifyKey(in.key, con)
+			// anchors of a family contract need not occur in every member
+			var keep []*Obligation
+			for _, o := range u.Obls {
+				if i := strings.Index(o.Name, ":anchor:"); i >= 0 && !con.MustAt[o.Name[i+len(":anchor:"):]] {
+					continue
+				}
+				keep = append(keep, o)
 			}
-			keep = append(keep, o)
+			u.Obls = keep
+			if in.kind == "complexityswitch" {
+				u.Obls = append(u.Obls, complexityLabelObligations(u.Short, in.ref)...)
+			}
+			units = append(units, u)
 		}
-		u.Obls = keep
-		if in.kind == "complexityswitch" {
-			u.Obls = append(u.Obls, complexityLabelObligations(u.Short, in.ref)...)
-		}
-		units = append(units, u)
 		// closure members (inner functions the object executor hands to the scheduler)
 		sub := byKind[in.kind+"$closure"]
 		if sub != nil {
